@@ -10,7 +10,7 @@
    [unseen ieqb old l] keeps the columns of l whose identity no column of [old] has;
    [subseq a b]: a is b with elements left out, order kept;  [pops k o]: o is pop_column on schema k. *)
 From Coq Require Import List ZArith Bool.
-From Orso Require Import Model.C17 Proofs.C17 Proofs.C17_Iter.
+From Orso Require Import Model.C17 Proofs.C17 Proofs.C17_Iter Proofs.C17_Session.
 Import ListNotations.
 
 (* ---------------- union ---------------- *)
@@ -298,11 +298,11 @@ Print Assumptions C17_pop_in_history.
    opened and advanced in between - the successive next() calls on it return the column names store[i]
    had at that moment, each once, in positional order, then StopIteration. *)
 Theorem C17_iterator_snapshot :
-  forall (I T P : Type) (ieqb : I -> I -> bool) (teqb : T -> T -> bool) (lower : T -> T)
+  forall (I T P : Type) (ieqb : I -> I -> bool) (teqb : T -> T -> bool) (lower : T -> T) (peqb : P -> P -> bool)
          (st : list (schema I T P)) (its : iters T) (i : nat) (s : schema I T P) (hops : list (hop T)),
   nth_error st i = Some s ->
-  hstep ieqb teqb lower (st, its) (HOpen i) = ((st, its ++ [column_names s]), XOpened) /\
-  map fst (select (is_next (length its)) hops (snd (hrun ieqb teqb lower (st, its ++ [column_names s]) hops))) =
+  hstep ieqb teqb lower peqb (st, its) (HOpen i) = ((st, its ++ [column_names s]), XOpened) /\
+  map fst (select (is_next (length its)) hops (snd (hrun ieqb teqb lower peqb (st, its ++ [column_names s]) hops))) =
     expected_nexts (column_names s) (length (filter (is_next (length its)) hops)).
 Proof. exact open_iterator_snapshot. Qed.
 Print Assumptions C17_iterator_snapshot.
@@ -311,37 +311,39 @@ Print Assumptions C17_iterator_snapshot.
    on it yields the head of l and leaves the tail (StopIteration on the empty list, which stays empty);
    every other call leaves it exactly as it is. *)
 Theorem C17_iterator_steps :
-  forall (I T P : Type) (ieqb : I -> I -> bool) (teqb : T -> T -> bool) (lower : T -> T)
+  forall (I T P : Type) (ieqb : I -> I -> bool) (teqb : T -> T -> bool) (lower : T -> T) (peqb : P -> P -> bool)
          (st : list (schema I T P)) (its : iters T) (k : nat) (l : list T),
   nth_error its k = Some l ->
   (forall h : hop T,
      if is_next k h
      then match l with
-          | n :: r => snd (hstep ieqb teqb lower (st, its) h) = XItem n /\
-                      nth_error (snd (fst (hstep ieqb teqb lower (st, its) h))) k = Some r
-          | [] => snd (hstep ieqb teqb lower (st, its) h) = XStop /\
-                  nth_error (snd (fst (hstep ieqb teqb lower (st, its) h))) k = Some []
+          | n :: r => snd (hstep ieqb teqb lower peqb (st, its) h) = XItem n /\
+                      nth_error (snd (fst (hstep ieqb teqb lower peqb (st, its) h))) k = Some r
+          | [] => snd (hstep ieqb teqb lower peqb (st, its) h) = XStop /\
+                  nth_error (snd (fst (hstep ieqb teqb lower peqb (st, its) h))) k = Some []
           end
-     else nth_error (snd (fst (hstep ieqb teqb lower (st, its) h))) k = Some l) /\
+     else nth_error (snd (fst (hstep ieqb teqb lower peqb (st, its) h))) k = Some l) /\
   (forall hops : list (hop T),
-     map fst (select (is_next k) hops (snd (hrun ieqb teqb lower (st, its) hops))) =
+     map fst (select (is_next k) hops (snd (hrun ieqb teqb lower peqb (st, its) hops))) =
        expected_nexts l (length (filter (is_next k) hops))).
 Proof.
-  intros I T P ieqb teqb lower st its k l H. split.
+  intros I T P ieqb teqb lower peqb st its k l H. split.
   - intros h. apply hstep_iterator. exact H.
   - intros hops. apply iterator_yields. exact H.
 Qed.
 Print Assumptions C17_iterator_steps.
 
-(* Opening and advancing iterators modifies no schema: the schemas after a history with iterators are
+(* Opening and advancing iterators (and lookup tables) modifies no schema: in a history without the
+   caller's in-place mutations ([mutates]: rename / set aliases / insert / del, round 3) the schemas are
    those after its plain calls alone, and the plain calls return (and leave in every schema) what they
    do without the iterators - so C17_operands_unchanged, C17_history_frame and C17_pop_in_history hold
    verbatim for histories with iterators. *)
 Theorem C17_iterators_leave_schemas :
-  forall (I T P : Type) (ieqb : I -> I -> bool) (teqb : T -> T -> bool) (lower : T -> T)
+  forall (I T P : Type) (ieqb : I -> I -> bool) (teqb : T -> T -> bool) (lower : T -> T) (peqb : P -> P -> bool)
          (hops : list (hop T)) (st : list (schema I T P)) (its : iters T),
-  fst (fst (hrun ieqb teqb lower (st, its) hops)) = fst (run ieqb teqb lower st (plain hops)) /\
-  select is_plain hops (snd (hrun ieqb teqb lower (st, its) hops)) = snd (run ieqb teqb lower st (plain hops)).
+  forallb (fun h => negb (mutates h)) hops = true ->
+  fst (fst (hrun ieqb teqb lower peqb (st, its) hops)) = fst (run ieqb teqb lower st (plain hops)) /\
+  select is_plain hops (snd (hrun ieqb teqb lower peqb (st, its) hops)) = snd (run ieqb teqb lower st (plain hops)).
 Proof. exact hrun_store. Qed.
 Print Assumptions C17_iterators_leave_schemas.
 
@@ -365,18 +367,145 @@ Print Assumptions C17_remove_while_iterating_fn.
    removed under it - and afterwards store[i] holds exactly the columns pred does not select; all other
    schemas are as before. *)
 Theorem C17_remove_while_iterating :
-  forall (I T P : Type) (ieqb : I -> I -> bool) (teqb : T -> T -> bool) (lower : T -> T),
+  forall (I T P : Type) (ieqb : I -> I -> bool) (teqb : T -> T -> bool) (lower : T -> T) (peqb : P -> P -> bool),
   (forall a b : T, teqb a b = true <-> a = b) ->
   forall (pred : T -> bool) (st : list (schema I T P)) (its : iters T) (i : nat) (s : schema I T P),
   nth_error st i = Some s ->
   let k := length its in
   let hops := HOpen i :: loop_hops pred i k (column_names s) ++ [HNext k] in
-  fst (fst (hrun ieqb teqb lower (st, its) hops)) =
+  fst (fst (hrun ieqb teqb lower peqb (st, its) hops)) =
     set_nth st i (mksch (sname s) (saliases s) (filter (fun c => negb (pred (cname c))) (scols s))) /\
-  map fst (select (is_next k) hops (snd (hrun ieqb teqb lower (st, its) hops))) =
+  map fst (select (is_next k) hops (snd (hrun ieqb teqb lower peqb (st, its) hops))) =
     map (fun n => XItem n) (column_names s) ++ [XStop].
 Proof. exact remove_while_iterating. Qed.
 Print Assumptions C17_remove_while_iterating.
+
+(* ---------------- sessions on the same objects (round 3) ---------------- *)
+(* Vocabulary (Proofs/C17_Session.v): [target h] = the schema a read-only call h asks (find_column,
+   column(int), column(str), all_column_names, column_names, iteration, HTable = a whole lookup table);
+   [answer h s] = its answer computed from the schema VALUE s alone (find_column etc. of Model/C17.v);
+   HRename / HSetAliases = the caller assigns .name / .aliases of a column OBJECT (known by its tag: every
+   occurrence in every schema changes); HInsertFrom / HDelAt = the caller edits a schema's column list. *)
+
+(* Lookups have no memory: after ANY history - earlier lookups of any key in either mode, removals, sums,
+   in-place mutations, iterators - a lookup on schema i returns [answer h s] for the value s schema i has
+   at that moment (and whatever is called afterwards does not change what it returned); the lookup itself
+   changes neither a schema nor an iterator; and two states reached by different histories in which
+   schema i has the same value give the same answer. *)
+Theorem C17_session_lookup :
+  forall (I T P : Type) (ieqb : I -> I -> bool) (teqb : T -> T -> bool) (lower : T -> T) (peqb : P -> P -> bool)
+         (h : hop T) (i : nat),
+  target h = Some i ->
+  (forall (before after : list (hop T)) (st : list (schema I T P)) (its : iters T) (s : schema I T P),
+     nth_error (fst (fst (hrun ieqb teqb lower peqb (st, its) before))) i = Some s ->
+     nth_error (map fst (snd (hrun ieqb teqb lower peqb (st, its) (before ++ h :: after)))) (length before)
+       = Some (answer teqb lower h s)) /\
+  (forall (st : list (schema I T P)) (its : iters T) (s : schema I T P),
+     nth_error st i = Some s ->
+     hstep ieqb teqb lower peqb (st, its) h = ((st, its), answer teqb lower h s)) /\
+  (forall (st st' : list (schema I T P)) (its its' : iters T),
+     nth_error st i = nth_error st' i ->
+     snd (hstep ieqb teqb lower peqb (st, its) h) = snd (hstep ieqb teqb lower peqb (st', its') h)).
+Proof.
+  intros I T P ieqb teqb lower peqb h i Ht. split; [|split].
+  - intros before after st its s Hs. apply session_lookup with (i := i); assumption.
+  - intros st its s Hs. apply lookup_answer with (i := i); assumption.
+  - intros st st' its its' E. apply lookup_depends_on_value with (i := i); assumption.
+Qed.
+Print Assumptions C17_session_lookup.
+
+(* What the answers are: a lookup table is find_column key by key (so C17_find_first_bearer,
+   C17_find_positional, C17_find_all_names and C17_pop_keeps_other_lookups describe every entry). *)
+Theorem C17_lookup_table :
+  forall (I T P : Type) (teqb : T -> T -> bool) (lower : T -> T) (i : nat) (ci : bool) (keys : list T)
+         (s : schema I T P),
+  target (HTable i ci keys) = Some i /\
+  answer teqb lower (HTable i ci keys) s =
+    XCols (map (fun k => option_map ctag (find_column teqb lower ci k s)) keys) /\
+  (forall key, answer teqb lower (HOp (OFind i key ci)) s = XCol (option_map ctag (find_column teqb lower ci key s))).
+Proof. intros. repeat split. Qed.
+Print Assumptions C17_lookup_table.
+
+(* A column object mutated in place (name or aliases assigned by the caller): EVERY schema of the store
+   sees it - each occurrence of that object, recognised by its tag, carries the new value, every other
+   column is as before - while which objects each schema lists, their identities and the schemas' names
+   and aliases do not change; a schema that does not list the object is untouched; after a rename to n
+   the column at that position is named n and a lookup of n on that schema finds a column. *)
+Theorem C17_column_mutated_in_place :
+  forall (I T P : Type) (ieqb : I -> I -> bool) (teqb : T -> T -> bool) (lower : T -> T) (peqb : P -> P -> bool),
+  (forall a b : T, teqb a b = true <-> a = b) ->
+  (forall a b : P, peqb a b = true <-> a = b) ->
+  forall (st : list (schema I T P)) (its : iters T) (i q : nat) (s : schema I T P) (c : col I T P),
+  nth_error st i = Some s -> nth_error (scols s) q = Some c ->
+  forall (f : col I T P -> col I T P) (h : hop T),
+  ((exists n, f = set_name n /\ h = HRename i q n) \/ (exists al, f = set_aliases al /\ h = HSetAliases i q al)) ->
+  let st' := map (upd_col peqb (ctag c) f) st in
+  hstep ieqb teqb lower peqb (st, its) h = ((st', its), XDone) /\
+  tags_of st' = tags_of st /\
+  (forall k, nth_error st' k = option_map (upd_col peqb (ctag c) f) (nth_error st k)) /\
+  (forall (s2 : schema I T P) (p : nat) (d : col I T P), nth_error (scols s2) p = Some d ->
+     (ctag d = ctag c -> nth_error (scols (upd_col peqb (ctag c) f s2)) p = Some (f d)) /\
+     (ctag d <> ctag c -> nth_error (scols (upd_col peqb (ctag c) f s2)) p = Some d)) /\
+  (forall s2 : schema I T P,
+     sname (upd_col peqb (ctag c) f s2) = sname s2 /\ saliases (upd_col peqb (ctag c) f s2) = saliases s2 /\
+     map cid (scols (upd_col peqb (ctag c) f s2)) = map cid (scols s2) /\
+     ((forall d, In d (scols s2) -> ctag d <> ctag c) -> upd_col peqb (ctag c) f s2 = s2)) /\
+  (forall n, f = set_name n ->
+     nth_error (column_names (upd_col peqb (ctag c) f s)) q = Some n /\
+     exists d, find_column teqb lower false n (upd_col peqb (ctag c) f s) = Some d).
+Proof.
+  intros I T P ieqb teqb lower peqb HT HP st its i q s c Hs Hc f h Hf st'.
+  assert (Htag : forall d, ctag (f d) = ctag d) by (destruct Hf as [(n & -> & _)|(al & -> & _)]; reflexivity).
+  assert (Hid : forall d, cid (f d) = cid d) by (destruct Hf as [(n & -> & _)|(al & -> & _)]; reflexivity).
+  split; [|split; [|split; [|split; [|split]]]].
+  - destruct Hf as [(n & -> & ->)|(al & -> & ->)];
+      [apply rename_spec with (s := s) | apply set_aliases_spec with (s := s)]; assumption.
+  - apply tags_of_upd. exact Htag.
+  - intros k. apply upd_col_store.
+  - intros s2 p d Hd. apply upd_col_cols; assumption.
+  - intros s2. destruct (upd_col_keeps I T P peqb (ctag c) f s2 Htag Hid) as (A & B & _ & D).
+    split; [exact A|]. split; [exact B|]. split; [exact D|]. apply upd_col_frame. exact HP.
+  - intros n ->. apply (renamed_is_found I T P teqb lower peqb HT); [|exact Hc].
+    intros a. apply HP. reflexivity.
+Qed.
+Print Assumptions C17_column_mutated_in_place.
+
+(* A schema's column list edited by the caller: insert(p, column) / del [p] change that schema's list as
+   the Python list operations do (insert beyond the end appends; del outside raises IndexError and
+   changes nothing), keep its name and aliases, and leave every other schema as it was.  A deletion is a
+   removal at pre|d|post, so C17_pop_keeps_other_lookups describes every lookup after it. *)
+Theorem C17_column_list_mutated_in_place :
+  forall (I T P : Type) (ieqb : I -> I -> bool) (teqb : T -> T -> bool) (lower : T -> T) (peqb : P -> P -> bool)
+         (st : list (schema I T P)) (its : iters T) (i : nat) (s : schema I T P),
+  nth_error st i = Some s ->
+  (forall (p j q : nat) (s2 : schema I T P) (c : col I T P),
+     nth_error st j = Some s2 -> nth_error (scols s2) q = Some c ->
+     hstep ieqb teqb lower peqb (st, its) (HInsertFrom i p j q) = ((set_nth st i (insert_at p c s), its), XDone) /\
+     (p <= length (scols s) ->
+        exists pre post, scols s = pre ++ post /\ length pre = p /\ scols (insert_at p c s) = pre ++ c :: post /\
+                         sname (insert_at p c s) = sname s /\ saliases (insert_at p c s) = saliases s) /\
+     (length (scols s) <= p -> scols (insert_at p c s) = scols s ++ [c])) /\
+  (forall p : nat,
+     (p < length (scols s) ->
+        hstep ieqb teqb lower peqb (st, its) (HDelAt i p) = ((set_nth st i (del_at p s), its), XDone) /\
+        exists pre d post, scols s = pre ++ d :: post /\ length pre = p /\
+                           del_at p s = mksch (sname s) (saliases s) (pre ++ post)) /\
+     (length (scols s) <= p -> hstep ieqb teqb lower peqb (st, its) (HDelAt i p) = ((st, its), XRaise))) /\
+  (forall (k : nat) (x : schema I T P), k <> i -> nth_error (set_nth st i x) k = nth_error st k) /\
+  (forall x : schema I T P, nth_error (set_nth st i x) i = Some x).
+Proof.
+  intros I T P ieqb teqb lower peqb st its i s Hs. split; [|split; [|split]].
+  - intros p j q s2 c H2 Hc. split; [apply insert_spec with (s2 := s2); assumption|].
+    split; [apply insert_at_split | apply insert_at_end].
+  - intros p. split.
+    + intros Hp. rewrite (del_spec I T P ieqb teqb lower peqb st its i p s Hs).
+      rewrite (proj2 (Nat.ltb_lt _ _) Hp). split; [reflexivity | apply del_at_split; exact Hp].
+    + intros Hp. rewrite (del_spec I T P ieqb teqb lower peqb st its i p s Hs).
+      rewrite (proj2 (Nat.ltb_ge _ _) Hp). reflexivity.
+  - intros k x Hk. apply set_nth_other. exact Hk.
+  - intros x. apply set_nth_same. apply nth_error_Some. rewrite Hs. discriminate.
+Qed.
+Print Assumptions C17_column_list_mutated_in_place.
 
 (* ---------------- non-vacuity ---------------- *)
 
@@ -437,10 +566,29 @@ Proof. repeat split; vm_compute; reflexivity. Qed.
 Example C17_nonvacuous_iterator :
   let hops := [HOpen 2; HNext 0; HOp (OPop 2 ex_a); HNext 0; HOp (OPop 2 ex_b); HOpen 2; HNext 0; HNext 1;
                HNext 0; HNext 1; HOp (ONames 2)] in
-  let r := hrun text_eqb text_eqb ascii_lower ([ex_l; ex_rt; add text_eqb ex_l ex_rt], []) hops in
+  let r := hrun text_eqb text_eqb ascii_lower N.eqb ([ex_l; ex_rt; add text_eqb ex_l ex_rt], []) hops in
   map fst (snd r) =
     [XOpened; XItem ex_a; XCol (Some 1%N); XItem ex_a; XCol (Some 4%N); XOpened; XItem ex_b; XItem ex_a;
      XStop; XStop; XNames [ex_a]] /\
   tags_of (fst (fst r)) = [[1; 2]; [3; 4; 4; 5; 6]; [2]]%N /\
   map ctag (scols (drop_loop text_eqb (fun n => text_eqb n ex_b) ex_rt)) = [5%N].
 Proof. cbv zeta. split; [vm_compute; reflexivity|]. split; vm_compute; reflexivity. Qed.
+
+(* Session hypotheses are satisfiable: on l + r = [1(a, alias b) 2(a) 4(b, alias A)] take the whole
+   case-insensitive table for a b A zz, remove "a" (column 1, the bearer of alias b), take it again: b now
+   resolves to column 4 and a to column 2; rename column object 4 (also listed twice by r) to zz and give
+   column 2 the alias b: the table follows, r sees the new name at both positions, l is untouched by the
+   rename of 4; then the caller inserts r's first column (3) in front and deletes position 1. *)
+Example C17_nonvacuous_session :
+  let keys := [ex_a; ex_b; ex_A; [122; 122]%N] in
+  let hops := [HTable 2 true keys; HOp (OPop 2 ex_a); HTable 2 true keys; HRename 2 1 [122; 122]%N;
+               HSetAliases 2 0 (Some [ex_b]); HTable 2 false keys; HOp (ONames 1); HInsertFrom 2 0 1 0; HDelAt 2 1;
+               HTable 2 true keys; HDelAt 2 5] in
+  let r := hrun text_eqb text_eqb ascii_lower N.eqb ([ex_l; ex_rt; add text_eqb ex_l ex_rt], []) hops in
+  map fst (snd r) =
+    [XCols [Some 1; Some 1; Some 1; None]%N; XCol (Some 1%N); XCols [Some 2; Some 4; Some 2; None]%N; XDone; XDone;
+     XCols [Some 2; Some 2; Some 4; Some 4]%N; XNames [ex_b; [122; 122]%N; [122; 122]%N; ex_a; ex_b]; XDone; XDone;
+     XCols [Some 4; Some 3; Some 4; Some 4]%N; XRaise] /\
+  tags_of (fst (fst r)) = [[1; 2]; [3; 4; 4; 5; 6]; [3; 4]]%N /\
+  target (HTable 2 true keys) = Some 2 /\ mutates (HRename 2 1 ex_a) = true.
+Proof. cbv zeta. split; [vm_compute; reflexivity|]. repeat split; vm_compute; reflexivity. Qed.
